@@ -1,0 +1,82 @@
+//! Read-only verification hooks, compiled only with `--cfg lora_rs_verif`.
+//!
+//! Plain-data snapshots of otherwise private state (MAC configuration, channel plan, channel
+//! mask, join-channel walker, session, front-end state) so that an external explorer can
+//! canonicalise states and compare "before/after" exactly. Nothing here mutates state.
+
+#[derive(Clone, Copy, Debug, PartialEq, Eq, Hash)]
+pub struct VerifChannel {
+    pub frequency: u32,
+    pub dr_range: u8,
+    pub dl_frequency: Option<u32>,
+}
+
+#[derive(Clone, Copy, Debug, PartialEq, Eq, Hash)]
+pub struct VerifJoinChannels {
+    pub max_retries: usize,
+    pub num_retries: usize,
+    pub preferred_subband: Option<u8>,
+    pub available: [u8; 9],
+    pub previous: Option<u8>,
+    pub previous_channel: u8,
+}
+
+#[derive(Clone, Copy, Debug, PartialEq, Eq, Hash)]
+pub struct VerifRegion {
+    pub fixed: bool,
+    pub channel_mask: [u8; 9],
+    /// dynamic plans only
+    pub channels: [Option<VerifChannel>; 16],
+    /// fixed plans only
+    pub join: Option<VerifJoinChannels>,
+}
+
+#[derive(Clone, Copy, Debug, PartialEq, Eq, Hash)]
+pub struct VerifSession {
+    pub nwkskey: [u8; 16],
+    pub appskey: [u8; 16],
+    pub devaddr: u32,
+    pub fcnt_up: u32,
+    pub fcnt_down: Option<u32>,
+    pub adr_ack_cnt: u32,
+    pub confirmed: bool,
+    pub pending: [u8; 15],
+    pub pending_len: u8,
+    pub owed_ack: bool,
+}
+
+#[derive(Clone, Copy, Debug, PartialEq, Eq, Hash)]
+pub enum VerifMacState {
+    Unjoined,
+    Otaa { dev_nonce: u16 },
+    Joined(VerifSession),
+}
+
+#[derive(Clone, Copy, Debug, PartialEq, Eq, Hash)]
+pub struct VerifMac {
+    pub data_rate: u8,
+    pub rx1_delay: u32,
+    pub tx_power: Option<u8>,
+    pub rx1_dr_offset: u8,
+    pub rx2_data_rate: Option<u8>,
+    pub rx2_frequency: Option<u32>,
+    pub adr_enabled: bool,
+    pub region: VerifRegion,
+    pub state: VerifMacState,
+}
+
+/// One receive window as bound to an uplink: (frequency, spreading factor, bandwidth in Hz,
+/// max payload length).
+pub type VerifWindow = (u32, u8, u32, u8);
+
+#[derive(Clone, Copy, Debug, PartialEq, Eq, Hash)]
+pub enum VerifNbState {
+    Idle,
+    SendingData { join: bool, rx1: VerifWindow, rx2: VerifWindow },
+    WaitingForRxWindow { join: bool, rx1: VerifWindow, rx2: VerifWindow, window: u8, time: u32 },
+    WaitingForRx { join: bool, rx1: VerifWindow, rx2: VerifWindow, window: u8, time: u32 },
+}
+
+pub(crate) fn window(rf: &crate::radio::RfConfig) -> VerifWindow {
+    (rf.frequency, rf.bb.sf.factor() as u8, rf.bb.bw.hz(), rf.max_payload_len)
+}
